@@ -234,3 +234,6 @@ func ReadJSON(path string, v any) error {
 
 // JSON marshals v compactly (for replay artefacts).
 func JSON(v any) string { b, _ := json.Marshal(v); return string(b) }
+
+// FromJSON unmarshals s into v.
+func FromJSON(s string, v any) error { return json.Unmarshal([]byte(s), v) }
